@@ -48,6 +48,10 @@ def summarize(g: RefGraph) -> Dict[int, Summary]:  # pylint: disable=too-many-br
             elif op in ("int", "pushint"):
                 v = int_value(a[0])
                 st.append(("c", v) if v is not None else FREE)
+            elif op == "pushints":
+                for x in a:
+                    v = int_value(x)
+                    st.append(("c", v) if v is not None else FREE)
             elif op == "addr":
                 st.append(("a", "ADDR:ZERO" if a[0] == ZERO_ADDR else "ADDR:" + a[0]))
             elif op in ("txn", "global"):
@@ -132,6 +136,10 @@ class Dimension:
     def read(self, node: Any, v: Any) -> Any:  # pylint: disable=unused-argument
         return FREE
 
+    def outside_claim(self, node: Any) -> bool:  # pylint: disable=unused-argument
+        """A comparison the properties do not require the tool to read (upper reading: free)."""
+        return False
+
 
 def ev(node: Any, v: Any, dim: Dimension) -> Any:  # pylint: disable=too-many-return-statements,too-many-branches
     """Concrete value of a node under v: an int, an address token (str) or FREE."""
@@ -143,6 +151,8 @@ def ev(node: Any, v: Any, dim: Dimension) -> Any:  # pylint: disable=too-many-re
     if k == "r":
         return dim.read(node, v)
     if k == "op":
+        if CONST_FREE[0] and dim.outside_claim(node):
+            return FREE
         x = ev(node[2], v, dim)
         y = ev(node[3], v, dim)
         if x is FREE or y is FREE:
@@ -175,8 +185,34 @@ def ev(node: Any, v: Any, dim: Dimension) -> Any:  # pylint: disable=too-many-re
     return FREE
 
 
+# The properties read "comparisons of a governed field against constants literally and let every
+# other condition go either way".  A condition computed from constants alone (`int 1; bnz L`,
+# `int 0; return`) is such an other condition, but a tool that folds it is not wrong either.  The
+# oracle therefore brackets: lower sets evaluate constant-only conditions, upper sets (CONST_FREE
+# on) let them go either way; "must list" is demanded of the lower, "must not list" of the upper.
+CONST_FREE = [False]
+
+
+def has_read(node: Any) -> bool:
+    if not isinstance(node, tuple) or not node:
+        return False
+    if node[0] == "r":
+        return True
+    return any(has_read(x) for x in node[1:] if isinstance(x, tuple))
+
+
+def _any_node(node: Any, pred: Any) -> bool:
+    if not isinstance(node, tuple) or not node:
+        return False
+    if node[0] == "op" and pred(node):
+        return True
+    return any(_any_node(x, pred) for x in node[1:] if isinstance(x, tuple))
+
+
 def truth(node: Any, v: Any, dim: Dimension) -> FrozenSet[bool]:
     k = node[0]
+    if CONST_FREE[0] and not has_read(node):
+        return BOTH
     if k == "and":
         x = truth(node[1], v, dim)
         y = truth(node[2], v, dim)
@@ -207,8 +243,13 @@ def truth(node: Any, v: Any, dim: Dimension) -> FrozenSet[bool]:
 class Solver:  # pylint: disable=too-many-instance-attributes
     """Explores the abstract system of one program for one dimension."""
 
-    def __init__(self, g: RefGraph, summaries: Optional[Dict[int, Summary]] = None):
+    def __init__(self, g: RefGraph, summaries: Optional[Dict[int, Summary]] = None, end_accepts: Optional[bool] = None):
         self.g = g
+        # Reaching the end of the program text approves iff exactly one non-zero value is on the
+        # stack, which this abstraction does not track.  end_accepts=False (decided by E1: no
+        # concrete accepting run ends that way) makes the lower reading exact; otherwise the end
+        # "may accept" and the caller must not use the lower sets as a demand.
+        self.end_accepts = end_accepts
         self.sm = summaries if summaries is not None else summarize(g)
         self.states = 0
         self.transitions = 0
@@ -231,7 +272,15 @@ class Solver:  # pylint: disable=too-many-instance-attributes
         if ex == "return":
             return [], T in truth(s.cond, v, dim) if s.cond is not None else True
         if ex == "end":
-            return [], T in truth(s.cond, v, dim) if s.cond is not FREE else True
+            # the value left on the stack at the end of the program text decides approval, but it is
+            # neither asserted nor branched on: the upper reading lets it go either way
+            if CONST_FREE[0]:
+                return [], True
+            if self.end_accepts is False:
+                return [], False
+            if s.cond is FREE:
+                return [], True
+            return [], T in truth(s.cond, v, dim)
         if ex in ("bz", "bnz"):
             t = truth(s.cond, v, dim)
             last = g.blocks[b][-1]
@@ -245,7 +294,7 @@ class Solver:  # pylint: disable=too-many-instance-attributes
                 out.append((jump, stack))
             if take_fall:
                 if fall is None:
-                    acc = True  # falls off the end: outside the fragment, may accept
+                    acc = CONST_FREE[0] or self.end_accepts is not False  # falls off the end: may accept
                 elif (fall, stack) not in out:
                     out.append((fall, stack))
             return out, acc
@@ -259,7 +308,7 @@ class Solver:  # pylint: disable=too-many-instance-attributes
                 return [], False
             rp = stack[-1]
             if rp is None:
-                return [], True  # returns to the end of the program: may accept
+                return [], CONST_FREE[0] or self.end_accepts is not False  # returns to the end of the program: may accept
             return [(rp, stack[:-1])], False
         # b / multi / fall
         outs = [(t2, stack) for t2 in g.bsucc[b]]
@@ -388,6 +437,40 @@ class Solver:  # pylint: disable=too-many-instance-attributes
             out |= g.sub_blocks[s]
         return out
 
+    def const_conditions_matter(self, dim: Optional[Dimension] = None) -> bool:
+        """Some condition is computed from constants alone and its literal value closes a way
+        (zero anywhere, or any value at a two-way branch)."""
+        for b in self.g.retained_blocks:
+            s = self.sm[b]
+            conds = [(c, "assert") for c in s.asserts]
+            if s.cond is not None and s.cond is not FREE:
+                conds.append((s.cond, s.exit))
+            for c, how in conds:
+                if how == "end":
+                    return True
+                if dim is not None and _any_node(c, dim.outside_claim):
+                    return True
+                if has_read(c):
+                    continue
+                if how in ("bz", "bnz"):
+                    return True
+                val = ev(c, None, Dimension())
+                if val is FREE or not isinstance(val, int) or val == 0:
+                    return True
+        return False
+
+    def bracket_sets(self, dim: Dimension) -> Tuple[Dict[int, Set[Any]], Dict[int, Set[Any]], Dict[int, Set[Any]], Dict[int, Set[Any]], bool]:
+        """(lower exact, lower CI, upper exact, upper CI, some value accepts in the upper reading)."""
+        ex, ci, acc = self.exact_sets(dim)
+        if not self.const_conditions_matter(dim):
+            return ex, ci, ex, ci, acc
+        CONST_FREE[0] = True
+        try:
+            exf, cif, accf = self.exact_sets(dim)
+        finally:
+            CONST_FREE[0] = False
+        return ex, ci, exf, cif, accf
+
     def exact_sets(self, dim: Dimension) -> Tuple[Dict[int, Set[Any]], Dict[int, Set[Any]], bool]:
         """exact[b], exactCI[b] for every retained block, and 'some value accepts'."""
         ex: Dict[int, Set[Any]] = {b: set() for b in self.g.retained_blocks}
@@ -497,6 +580,14 @@ class KindDim(Dimension):
                 return v[2]
         return FREE
 
+    def outside_claim(self, node: Any) -> bool:
+        # ApplicationID is read as "zero / non-zero" (creation or not); a comparison with a particular
+        # non-zero id says something about the kind only by arithmetic the properties do not mention
+        sides = (node[2], node[3])
+        if any(s[0] == "r" and s[1] == "txn" and s[2] == "ApplicationID" for s in sides):
+            return any(s[0] == "c" and s[1] != 0 for s in sides)
+        return False
+
 
 # --------------------------------------------------------------------------------------------
 # property-specific comparisons against tealer
@@ -519,12 +610,32 @@ def _tealer_blocks(case: Any) -> List[Tuple[int, Any]]:
     return out
 
 
+def end_accepts(case: Any) -> Optional[bool]:
+    """Does some concrete accepting run end by reaching the end of the program text?  None when E1
+    did not cover the program completely."""
+    if case.ex is None or case.ex.capped:
+        return None
+    for r in case.accepting:
+        if r.pcs and case.lines[r.pcs[-1]].op != "return":
+            return True
+    return False
+
+
+def lower_usable(case: Any, ea: Optional[bool]) -> bool:
+    """The lower sets are exact enough to be demanded: the end of the text never approves, or cannot be reached."""
+    from mc.sem import can_fall_off_end  # pylint: disable=import-outside-toplevel
+
+    return ea is False or not can_fall_off_end(case.lines)
+
+
 def check_c06_exact(case: Any, item: Any, res: Any) -> None:  # pylint: disable=too-many-locals
     g = case.g
-    solver = Solver(g)
+    ea = end_accepts(case)
+    lo_ok = lower_usable(case, ea)
+    solver = Solver(g, end_accepts=ea)
     multi = solver.multi_context_blocks()
-    ex_s, ci_s, _ = solver.exact_sets(SizeDim())
-    ex_i, ci_i, _ = solver.exact_sets(IndexDim())
+    ex_s, _, exf_s, ci_s, _ = solver.bracket_sets(SizeDim())
+    ex_i, _, exf_i, ci_i, _ = solver.bracket_sets(IndexDim())
     res.count("o2_states", solver.states)
     res.count("o2_transitions", solver.transitions)
     for rb, tb in _tealer_blocks(case):
@@ -533,8 +644,8 @@ def check_c06_exact(case: Any, item: Any, res: Any) -> None:  # pylint: disable=
         ctx = case.ctx(tb)
         ts, ti = set(ctx.group_sizes), set(ctx.group_indices)
         res.count("o2_block_checks")
-        lo_s, hi_s = ex_s[rb], (ci_s[rb] if rb in multi else ex_s[rb])
-        if not lo_s <= ts:
+        lo_s, hi_s = ex_s[rb], (ci_s[rb] if rb in multi else exf_s[rb])
+        if lo_ok and not lo_s <= ts:
             res.violation("C06.exact.size-missing", item, block=tb.entry_instr.line, expected=sorted(lo_s), actual=sorted(ts))
         elif not ts <= hi_s:
             res.violation("C06.exact.size-extra", item, block=tb.entry_instr.line, expected=sorted(hi_s), actual=sorted(ts),
@@ -542,8 +653,8 @@ def check_c06_exact(case: Any, item: Any, res: Any) -> None:  # pylint: disable=
         cap_lo = max(lo_s) if lo_s else 0
         cap_hi = max(hi_s) if hi_s else 0
         lo_i = {i for i in ex_i[rb] if i < cap_lo}
-        hi_i = {i for i in (ci_i[rb] if rb in multi else ex_i[rb]) if i < cap_hi}
-        if not lo_i <= ti:
+        hi_i = {i for i in (ci_i[rb] if rb in multi else exf_i[rb]) if i < cap_hi}
+        if lo_ok and not lo_i <= ti:
             res.violation("C06.exact.index-missing", item, block=tb.entry_instr.line, expected=sorted(lo_i), actual=sorted(ti))
         elif not ti <= hi_i:
             res.violation("C06.exact.index-extra", item, block=tb.entry_instr.line, expected=sorted(hi_i), actual=sorted(ti),
@@ -561,10 +672,12 @@ def addr_values(prog: Any, field: str) -> List[str]:
 def check_c09_abstract(case: Any, item: Any, res: Any, single_atom: bool) -> None:
     """Credit clause and single-direct-check exactness of the fee bound (O2)."""
     g = case.g
-    solver = Solver(g)
+    ea = end_accepts(case)
+    lo_ok = lower_usable(case, ea)
+    solver = Solver(g, end_accepts=ea)
     multi = solver.multi_context_blocks()
     dim = UintFieldDim("Fee", fee_values(case.prog))
-    ex, ci, _ = solver.exact_sets(dim)
+    ex, _, exf, _, _ = solver.bracket_sets(dim)
     res.count("o2_states", solver.states)
     res.count("o2_transitions", solver.transitions)
     for rb, tb in _tealer_blocks(case):
@@ -574,23 +687,28 @@ def check_c09_abstract(case: Any, item: Any, res: Any, single_atom: bool) -> Non
         res.count("o2_block_checks")
         lo = ex[rb]
         credited = ctx.max_fee_unknown or ctx.max_fee <= 272000
+        if not lo_ok:
+            res.count("lower_sets_not_demanded_end_of_text_may_approve")
+            continue
         if credited and any(v > 272000 for v in lo):
             res.violation("C09.credit-without-constraint", item, block=tb.entry_instr.line, max_fee=ctx.max_fee,
                           unknown=ctx.max_fee_unknown, admitted=sorted(lo)[-3:])
         if not ctx.max_fee_unknown and lo and max(lo) > ctx.max_fee:
             res.violation("C09.abstract-bound-too-low", item, block=tb.entry_instr.line, max_fee=ctx.max_fee, admitted_max=max(lo))
         if single_atom and lo and rb not in multi and not ctx.max_fee_unknown:
-            if ctx.max_fee != max(lo):
+            if not max(lo) <= ctx.max_fee <= max(exf[rb]):
                 res.violation("C09.single-check-not-exact", item, block=tb.entry_instr.line, expected=max(lo), actual=ctx.max_fee)
             res.count("single_check_exact_blocks")
 
 
 def check_c08_converse(case: Any, item: Any, res: Any, field: str, attr: str) -> None:
     g = case.g
-    solver = Solver(g)
+    ea = end_accepts(case)
+    lo_ok = lower_usable(case, ea)
+    solver = Solver(g, end_accepts=ea)
     multi = solver.multi_context_blocks()
     dim = AddrFieldDim(field, addr_values(case.prog, field))
-    ex, ci, _ = solver.exact_sets(dim)
+    ex, _, exf, ci, _ = solver.bracket_sets(dim)
     res.count("o2_states", solver.states)
     res.count("o2_transitions", solver.transitions)
     for rb, tb in _tealer_blocks(case):
@@ -598,12 +716,12 @@ def check_c08_converse(case: Any, item: Any, res: Any, field: str, attr: str) ->
             continue
         av = getattr(case.ctx(tb), attr)
         res.count("o2_block_checks")
-        hi = ci[rb] if rb in multi else ex[rb]
+        hi = ci[rb] if rb in multi else exf[rb]
         if "ADDR:ATTACKER" not in hi and av.any_addr:
             res.violation("C08.any-address-although-excluded", item, block=tb.entry_instr.line, field=field,
                           admitted=sorted(hi), multi_context=rb in multi)
         # abstract soundness: every admitted non-zero address must be admitted by tealer
-        for v in ex[rb]:
+        for v in ex[rb] if lo_ok else ():
             if v == "ADDR:ZERO":
                 continue
             from mc.sem import addr_admits  # pylint: disable=import-outside-toplevel
